@@ -549,6 +549,51 @@ Example C06_ex_timeout :
     [mkFrame 2 CQuorum 10 (AnsErr (EDbError DbOverloaded)) 95000 1] 0 100000 101000 150000 20000 = true.
 Proof. vm_compute. repeat split; reflexivity. Qed.
 
+(* COMPLETENESS of the one-fiber checker: check_single accepts EXACTLY the observations of runs of the
+   model -- a certificate is accepted if and only if it is a run of [fiber] to its end whose attempts are
+   the frames one to one, in order, each answered before the next arrives, same-node retries on the same
+   shard, on a plan of distinct cluster nodes covering every node that is not cut, skipping only cut nodes,
+   with the model's result and coordinator, the last answer logged before the call returned.  So for a
+   legitimate observation a rejection (`diff`) can only come from the driver not PROPOSING the run's
+   (plan, outcome stream) -- never from the checker. *)
+Theorem C06_e2e_run_iff : forall p idem cl0 nodes down c frs tret o co,
+  check_single p idem cl0 nodes down c frs tret o co = true <->
+  (c_free c = false /\
+   exists tr r,
+     fiber p idem cl0 (c_plan c) (c_outs c) = (tr, r)
+     /\ Forall2 ev_obs (attempts tr) frs
+     /\ res_match r o = true /\ coord_match co r = true
+     /\ seq_ok frs = true /\ shards_ok down frs = true /\ last_done_by tret frs = true
+     /\ NoDup (c_plan c) /\ incl (c_plan c) nodes
+     /\ (forall n, In n nodes -> In n (c_plan c) \/ In n down)
+     /\ (forall t, In t (conn_fail_targets tr) -> In t down)).
+Proof. exact single_iff. Qed.
+
+(* The certificate of a finished run is determined by what happened: its outcome stream can be read off
+   the trace, one outcome per event (OConnFail for a skipped target, the answer for an attempt) -- the
+   shape of the candidates the driver enumerates (the answers of the frames, with OConnFail inserted for
+   cut nodes).  With C06_e2e_run_iff: for the observation of a finished run on [plan], the certificate
+   (plan, outs_of_trace tr) is accepted. *)
+Theorem C06_canonical_outs : forall p idem cl0 plan outs tr r,
+  fiber p idem cl0 plan outs = (tr, r) -> r <> RPending ->
+  fiber p idem cl0 plan (outs_of_trace tr) = (tr, r).
+Proof. exact fiber_canonical_outs. Qed.
+
+(* Cutting a fiber short -- the client-side timeout dropping the runner, `execute` dropping a
+   speculative fiber -- adds no attempt: a pending run is a PREFIX of every run on a longer outcome
+   stream.  (The model-level content behind "nothing is sent after the call has given up".) *)
+Theorem C06_cancel_prefix : forall p idem cl0 plan outs tr,
+  fiber p idem cl0 plan outs = (tr, RPending) ->
+  forall more, exists tr' r', fiber p idem cl0 plan (outs ++ more) = (tr ++ tr', r').
+Proof. exact fiber_pending_prefix. Qed.
+
+Example C06_ex_cancel_prefix :
+  fiber PDefault true CQuorum [1; 2; 3]%N [OError ex_unavail]
+  = ([EvAttempt 1%N CQuorum (AErr ex_unavail (RetryNextTarget None))], RPending) /\
+  fst (fiber PDefault true CQuorum [1; 2; 3]%N [OError ex_unavail; OSuccess])
+  = [EvAttempt 1%N CQuorum (AErr ex_unavail (RetryNextTarget None))] ++ [EvAttempt 2%N CQuorum AOk].
+Proof. vm_compute. split; reflexivity. Qed.
+
 (* Shard-aware targets: a plan target is a (node, shard) pair.  Consecutive frames of an accepted
    ONE-FIBER request (premise check_single) on one node (a same-target retry) arrive on the same
    shard -- unless that node lost a connection (the pool then hands out a connection of another
@@ -659,6 +704,9 @@ Print Assumptions C06_e2e_prop_frames_any.
 Print Assumptions C06_e2e_request_bound.
 Print Assumptions C06_e2e_no_more.
 Print Assumptions C06_e2e_same_shard.
+Print Assumptions C06_e2e_run_iff.
+Print Assumptions C06_cancel_prefix.
+Print Assumptions C06_canonical_outs.
 Print Assumptions C06_e2e_timeout_frames.
 Print Assumptions C06_e2e_timeout.
 Print Assumptions C06_e2e_run.
